@@ -664,6 +664,25 @@ def install(world):
     world.method_models.append(lambda o, n, a, k, it, node: dict_method(
         world, o, n, a, k, it, node))
 
+    # exceptions as values: `e.wrapped` of a WrappedException is some host
+    # exception (class unknown: Exception), with_traceback returns self
+    def exc_attr(o, name, it):
+        if isinstance(o, ExcVal) and name == 'wrapped':
+            from .interp import BUILTIN_EXC
+            if o.args and isinstance(o.args[0], ExcVal):
+                return o.args[0]
+            return ExcVal(BUILTIN_EXC['Exception'], (), o.line)
+        return NotImplemented
+    world.attr_models.append(exc_attr)
+
+    def exc_method(o, n, a, k, it, node):
+        if isinstance(o, ExcVal) and n == 'with_traceback':
+            return o
+        return NotImplemented
+    world.method_models.append(exc_method)
+    world.lib[('sys', 'exc_info')] = Model(
+        'sys.exc_info', lambda: (None, None, None))
+
     def opaque_method(o, n, a, k, it, node):
         if isinstance(o, SVal) and n in world.opaque_sigs:
             return world.opaque_sigs[n](o, a, k, it)
